@@ -588,6 +588,17 @@ def _run(ctx):
 
 def replay(rec):
     case = rec["case"]
+    if case.get("layer") == "pair":
+        e2e = E2E()
+        try:
+            fails = check_pair_case(e2e, SP.from_json(case["first"]), SP.from_json(case["second"]), case["lens"])
+        finally:
+            e2e.close()
+        print(f"replay C01: {[f['what'] for f in fails] or 'both submissions give what their splitter means'}")
+        if fails:
+            print(f"VIOLATION property=C01 replay={rec.get('_path', '')}")
+            return 1
+        return 0
     s = SP.from_json(case["splitter"])
     lens = case["lens"]
     if case.get("layer") == "e2e":
